@@ -1,16 +1,17 @@
 #!/bin/bash
-# usage: seedmatrix.sh [-full] [seed ids...]
+# usage: seedmatrix.sh [-full|-own] [seed ids...]
 # Prints, per seeded change, which quick checks report a violation. Default: the check of the
 # property the change breaks plus the checks whose quick tier takes seconds (C03 C04 C09 C10 C12
 # C16 C18) and one generated-parser check (C08); -full runs all 19 (about 5 minutes per change).
 cd "$(dirname "$0")"
 full=0; [ "${1:-}" = "-full" ] && { full=1; shift; }
+[ "${1:-}" = "-own" ] && { full=2; shift; }   # only the quick check of the property the change breaks
 ids=${@:-$(ls seeded | grep '^C')}
 all=$(python3 -c "import json; print(' '.join(c['property_id'] for c in json.load(open('MANIFEST.json'))['checks']))")
 cheap="C03 C04 C08 C09 C10 C12 C16 C18"
 for s in $ids; do
   own=${s:0:3}
-  if [ $full = 1 ]; then set="$all"; else set=$(echo "$own $cheap" | tr ' ' '\n' | sort -u | tr '\n' ' '); fi
+  if [ $full = 1 ]; then set="$all"; elif [ $full = 2 ]; then set="$own"; else set=$(echo "$own $cheap" | tr ' ' '\n' | sort -u | tr '\n' ' '); fi
   echo "== $s"
   ./seedtest.sh seeded/$s quick $set 2>&1 | awk '{print $1, $2}' | tr '\n' ' '; echo
 done
